@@ -290,7 +290,10 @@ def command_configs(ctx, n_cfg):
         else:
             sub = ["best_states", "--sampling-repetitions", str(ctx.rng.randint(1, 3)),
                    "--eval-repetitions", str(ctx.rng.randint(1, 3))]
-        cfgs.append({"cmd": cmd, "common": common_args, "sub": sub, "name": f"run{i % 5}"})   # names repeat every 5 runs
+        # names repeat every 5 runs; several differ only after their last dot (version suffixes, the default ISO timestamps
+        # with fractional seconds) - they are different names and must stay different entries
+        names5 = ["run0", "ppo.v1", "ppo.v2", "2026-09-30T12:00:00.104233", "2026-09-30T12:00:00.871902"]
+        cfgs.append({"cmd": cmd, "common": common_args, "sub": sub, "name": names5[i % 5]})
     return cfgs
 
 
@@ -498,6 +501,31 @@ def stream_full_save(ctx, n_cases: int):
                            "handed_actions": actions0.tolist(), "stored_actions": np.asarray(back.actions).tolist()})
         elif not (_arr_eq(out.data, data0) and _arr_eq(out.actions, actions0)):
             ctx.violation("save() modified the Output it was handed", {"before": data0.tolist(), "after": np.asarray(out.data).tolist()})
+    # (A') a sequence of saves with every saver into ONE model directory under names that differ only after their last dot
+    # (version suffixes, ISO timestamps with fractional seconds, decimal hyper-parameters): all are NEW names
+    names = ["ppo.v1", "ppo.v2", "2026-09-30T12:00:00.104233", "2026-09-30T12:00:00.871902", "lr=0.0003", "lr=0.001", "plain"]
+    rng.shuffle(names)
+    with tempfile.TemporaryDirectory(dir=str(ctx.work)) as d:
+        md = Path(d) / "model"
+        saved = {}
+        for j, name in enumerate(names[: (5 if ctx.quick else 7)]):
+            data = np.array([[float(j + 1), float(rng.randint(0, 9))]])
+            actions = np.array([[float(rng.randint(3, 30))]])
+            save.save(md, name, save.Output(data.copy(), actions.copy(), Namespace(func=print, number_of_players=3, tag=name)))
+            saved[name] = (data, actions)
+            ctx.evaluations += 1
+            ctx.count("full_save", "dotted-name sequence")
+            try:
+                stored = save.get_outputs_from_file(md / "data.json")
+            except Exception as e:  # noqa: BLE001
+                ctx.violation(f"results file unreadable after save() under the name {name!r}: {type(e).__name__}: {e}", {"names": list(saved)})
+                break
+            missing = [k for k in saved if k not in stored]
+            wrong = [k for k in saved if k in stored and not (_arr_eq(stored[k].data, saved[k][0]) and _arr_eq(stored[k].actions, saved[k][1]))]
+            if missing or wrong:
+                ctx.violation(f"after save() under the new name {name!r} the results file lacks {missing} / holds other matrices for {wrong}",
+                              {"names_saved_in_order": list(saved), "missing": missing, "wrong": wrong, "file_has": sorted(stored)})
+                break
     # (B) another writer between two saves of this process
     helper = ("import sys, numpy as np; from argparse import Namespace; from pathlib import Path; "
               "from incomplete_cooperative.run.save import Output, save_json; "
